@@ -27,9 +27,17 @@ def _decode_obs(b, gp, x, create=True):
     return (x2, act, nodes, dvv, extra), inst
 
 
-def gen_ops(rng, E, n_ops):
+def gen_ops(rng, E, n_ops, profile=None):
     ops = []
     fixed = {}
+    if profile == 'fixsel':
+        # fix one selection variable (preferring a late one: forced/linked choices then precede it) and decode repeatedly
+        sel_idx = [i for i, e in enumerate(E) if e[0] == 'sel']
+        if sel_idx:
+            i = sel_idx[-1] if rng.random() < 0.6 else rng.choice(sel_idx)
+            fixed[i] = rng.randrange(len(E[i][2]))
+            ops.append(['fix', i, fixed[i]])
+            ops += [['decode', None, True] for _ in range(3)]
     for _ in range(n_ops):
         r = rng.random()
         free_idx = [i for i in range(len(E)) if i not in fixed]
@@ -61,7 +69,7 @@ def gen_ops(rng, E, n_ops):
     return ops
 
 
-def run(case, kind, seed=0, n_ops=10, ops=None):
+def run(case, kind, seed=0, n_ops=10, ops=None, profile=None):
     from adsg_core.optimization.graph_processor import GraphProcessor
     from adsg_core.optimization.hierarchy import SelChoiceEncoderType
     rng = rng_for(seed, 'ops', kind, sx([case['n'], case['edges']]))
@@ -129,7 +137,7 @@ def run(case, kind, seed=0, n_ops=10, ops=None):
         return True
     origin_of = {sc['id']: sc['origin'] for sc in case.get('sel', [])}
     if ops is None:
-        ops = gen_ops(rng, E, n_ops)
+        ops = gen_ops(rng, E, n_ops, profile)
     fixed = {}
     returned = []
     trace = []
